@@ -7,6 +7,8 @@ telescope to Z, a bijective relabelling does not change the tempered target.  Th
      a proposal double made to emit every outcome tuple; `ImportanceSampler.sample` and `Aspire.sample_posterior` are run on ALL
      K^N outcomes and  sum_outcome q(outcome) * Z_hat(outcome)  is compared with Z to 1e-12 — an expectation computed by the
      implementation with no Monte-Carlo error; the Lean model (op `weights`) computes the same sum;
+ (c) QUADRATURE of the kernel target: exp(sampler.log_prob(z, beta)) integrated over the preconditioned space (using nothing
+     but sampler.log_prob) has the normalising constant and the mean of q^(1-b)(L pi)^b on the prior box — deterministic;
  (b) supporting EXPLORATION (never standing in for the theorem): replicate runs on analytic targets (Gaussian in a box, truncated
      Gaussian hugging a bound) x sampler x preconditioning option with fixed seed lists and 6-sigma bounds on mean Z_hat/Z and on the
      posterior mean; the real MCMC kernels are absent, the doubles are valid Metropolis kernels.
@@ -163,6 +165,73 @@ def check_step_enumeration(chk, r, n_targets):
             chk.disagree("expected step estimate", case, mE, E)
 
 
+# ----------------------------------------------------------------------------- (c) kernel target = tempered density (quadrature)
+def check_kernel_quadrature(chk, r, n_cases):
+    """The density the MCMC kernel is asked to leave invariant, exp(sampler.log_prob(z, beta)) on the preconditioned space, must be
+    the image of  q^(1-b) (L pi)^b  under the preconditioning map: same normalising constant and same mean of x(z).  The left side
+    uses ONLY sampler.log_prob on a uniform z grid (midpoint rule), the right side ONLY the user's functions and the proposal on
+    the prior box; nothing of the transform's own Jacobian enters the comparison.  Deterministic — no Monte-Carlo error."""
+    from . import c05
+
+    pre_opts = [("none", None), ("logit", {"bounded_to_unbounded": True, "bounded_transform": "logit", "affine_transform": False}),
+                ("probit", {"bounded_to_unbounded": True, "bounded_transform": "probit", "affine_transform": False}),
+                ("probit+affine", {"bounded_to_unbounded": True, "bounded_transform": "probit", "affine_transform": True}),
+                ("logit+affine", {"bounded_to_unbounded": True, "bounded_transform": "logit", "affine_transform": True}),
+                ("affine", {"bounded_to_unbounded": False, "affine_transform": True}),
+                ("periodic", {"bounded_to_unbounded": False, "affine_transform": False, "periodic": [0]})]
+    for t in range(n_cases):
+        pname, pc = pre_opts[t % len(pre_opts)]
+        sampler = ("minipcn_smc", "emcee_smc")[(t // len(pre_opts)) % 2]
+        nsn = ("numpy", "torch", "jax")[t % 3]
+        if sampler == "emcee_smc" and nsn == "jax" and pc is None:
+            nsn = "numpy"
+        half = float(r.choice([3.0, 4.0]))
+        cfg = {"sampler": sampler, "ns": nsn, "width": "f64", "dims": 1, "precond": pc, "half": half,
+               "like_center": float(r.choice([r.uniform(-1, 1), half - 0.15, -half + 0.3])), "like_width": float(r.choice([0.3, 0.8])),
+               "prop_kind": "gauss", "prop_mu": float(r.normal(0, 0.5)), "prop_sigma": float(r.choice([1.5, 3.0])),
+               "fit_seed": int(r.integers(1 << 30))}
+        betas = [float(r.uniform(0.05, 0.95)), float(10 ** r.uniform(-3, -1)), 1.0]
+        case = {"level": "kernel_quadrature", **cfg, "preconditioning": pname, "betas": betas}
+        chk.count(f"kernel_quadrature:{sampler}/{pname}")
+        chk.case(None, json.dumps(case))
+        try:
+            s, flow, target = c05.make(cfg)
+            xp = ns.get_xp(nsn)
+            tr = s.preconditioning_transform
+            xfit = np.random.default_rng(cfg["fit_seed"]).uniform(-0.9 * half, 0.9 * half, (40, 1))
+            s.fit_preconditioning_transform(xp.asarray(xfit))
+            unbounded = bool(pc and pc.get("bounded_to_unbounded"))
+            eps = 1e-13 * 2 * half if unbounded else 1e-12 * half   # (the upper edge itself wraps under the periodic map)
+            ends, _ = tr.forward(tr.xp.asarray(np.array([[-half + eps], [half - eps]])))
+            zlo, zhi = sorted(float(v) for v in ns.to_np(ends).reshape(-1))
+            M = 40000
+            hz = (zhi - zlo) / M
+            z = zlo + hz * (np.arange(M) + 0.5)
+            zin = tr.xp.asarray(z.reshape(-1, 1))
+            xz = ns.to_np(tr.inverse(zin)[0]).reshape(-1)
+            xg = -half + (2 * half / M) * (np.arange(M) + 0.5)
+            with np.errstate(all="ignore"):
+                ll, lp, lq = target.like_np(xg.reshape(-1, 1)), target.prior_np(xg.reshape(-1, 1)), flow._lp(xg.reshape(-1, 1))
+            bad = None
+            for b in betas:
+                with np.errstate(all="ignore"):
+                    lz = ns.to_np(s.log_prob(zin, b)).reshape(-1)
+                    lx = (1 - b) * lq + b * (ll + lp)
+                off = float(np.max(lx))
+                nz, nx = float(np.sum(np.exp(lz - off)) * hz), float(np.sum(np.exp(lx - off)) * (2 * half / M))
+                mz = float(np.sum(np.exp(lz - off) * xz) * hz) / nz if nz > 0 else float("nan")
+                mx = float(np.sum(np.exp(lx - off) * xg) * (2 * half / M)) / nx
+                if not (abs(nz / nx - 1) < 2e-4 and abs(mz - mx) < 2e-4 * half):
+                    bad = (b, nz / nx, mz, mx)
+                    break
+            if bad:
+                chk.fail("kernel target is the tempered density carried to the preconditioned space (quadrature)", case,
+                         f"beta={bad[0]}: integral of exp(log_prob) dz / integral of q^(1-b)(L pi)^b dx = {bad[1]:.6f}; mean x under the kernel target {bad[2]:.6f}, "
+                         f"under the tempered density {bad[3]:.6f}", {"level": "kernel_quadrature", "clause": "kernel_density", "sampler": sampler, "preconditioning": pname})
+        except Exception as e:  # noqa
+            chk.fail("run total", case, repr(e)[:200], {"level": "kernel_quadrature", "clause": "raise"})
+
+
 # ----------------------------------------------------------------------------- (b) replicates (exploration)
 def true_values(cfg):
     from scipy.stats import norm
@@ -266,6 +335,7 @@ def run(chk: core.Check):
                     "analytic truth from scipy.stats.norm"]
     check_enumeration(chk, r, 18 if quick else 150, quick)
     check_step_enumeration(chk, r, 12 if quick else 100)
+    check_kernel_quadrature(chk, np.random.default_rng(chk.seed + 1003), 14 if quick else 140)
     check_replicates(chk, r, quick)
 
     def search():
